@@ -168,6 +168,7 @@ def run_trace(cell):
                          TMaxHigh=tt(hy.TMaxHighT, Tn), TMaxLow=tt(hy.TMaxLowT, Tn), slowest=vt(hy.slowestDeton()))
         evs.append(setup)
         vws = velocities(hy, cell.get("nv", 12), rng)
+        vws = sorted(set(vws) | {hy.vJ - d for d in cell.get("belowJouguet", [])} | set(cell.get("vws", [])))
         for vw in vws:
             evs.append(match_event(th, hy, vw, cell.get("oracle", True), cell.get("template", False)))
         if cell.get("oracle", True):
@@ -222,7 +223,11 @@ def run_trace(cell):
                 sym.append("unconvergedFlag")
             elif flux_bad:
                 sym.append("fluxMismatchOther")
-            if e["vw"] <= su["vJ"] and su["vJ"] - e["vw"] <= 10000 and e.get("dTn", 16) < 4:
+            # hybrids within 1% of the Jouguet velocity: the flow from the returned (v+, T+) misses Tn, or (template equations of
+            # state) v+ is off the exact value, although the junction conditions at the wall hold
+            nearJ = e["vw"] <= su["vJ"] and su["vJ"] - e["vw"] <= su["vJ"] // 100
+            offT = "tvp" in e and abs(e["vp"] - e["tvp"]) > 500
+            if nearJ and (e.get("dTn", 16) < 5 or offT) and not flux_bad:
                 sym.append("nearJouguetShockMismatch")
             elif e["vw"] <= su["vJ"] and e.get("dTn", 16) < 4:
                 sym.append("shockMismatchOther")
